@@ -213,3 +213,72 @@ pub open spec fn rng_list_rel<CA: Fn(u64) -> Option<Address>>(ca: &CA, unit: usi
         || ((exists|r: wrng::Range| #[trigger] range_entry_rel(ca, unit, e, hb, r) && range_is_empty(r)) && rng_list_rel(ca, unit, pre, hb0, out))
     }
 }
+
+// ------------------------------------------------------------------------------------------------------------ location lists
+// DWARF 5 2.6.2 / 7.29 (.debug_loclists) and DWARF 2-4 .debug_loc: as for ranges, plus a location description per entry
+use crate::read::loclists as rloc;
+use crate::write::loc as wloc;
+use crate::read::Reader;
+
+pub open spec fn loc_entry_rel<R: Reader, CA: Fn(u64) -> Option<Address>>(ca: &CA, unit: usize, enc: Encoding, e: rloc::RawLocListEntry<R>, hb: bool, out: wloc::Location) -> bool {
+    match e {
+        rloc::RawLocListEntry::AddressOrOffsetPair { begin, end, data } => if hb { out matches wloc::Location::OffsetPair { begin: b, end: e2, data: d } && b == begin && e2 == end && expr_conv(data.0.rv(), enc, true, d) }
+            else { out matches wloc::Location::StartEnd { begin: b, end: e2, data: d } && conv_addr(ca, begin, b) && conv_addr(ca, end, e2) && expr_conv(data.0.rv(), enc, true, d) },
+        rloc::RawLocListEntry::BaseAddress { addr } => out matches wloc::Location::BaseAddress { address } && conv_addr(ca, addr, address),
+        rloc::RawLocListEntry::BaseAddressx { addr } => out matches wloc::Location::BaseAddress { address } && conv_addrx(ca, unit, addr.0.as_nat() as usize, address),
+        rloc::RawLocListEntry::StartxEndx { begin, end, data } => out matches wloc::Location::StartEnd { begin: b, end: e2, data: d } && conv_addrx(ca, unit, begin.0.as_nat() as usize, b) && conv_addrx(ca, unit, end.0.as_nat() as usize, e2) && expr_conv(data.0.rv(), enc, true, d),
+        rloc::RawLocListEntry::StartxLength { begin, length, data } => out matches wloc::Location::StartLength { begin: b, length: l, data: d } && conv_addrx(ca, unit, begin.0.as_nat() as usize, b) && l == length && expr_conv(data.0.rv(), enc, true, d),
+        rloc::RawLocListEntry::OffsetPair { begin, end, data } => out matches wloc::Location::OffsetPair { begin: b, end: e2, data: d } && b == begin && e2 == end && expr_conv(data.0.rv(), enc, true, d),
+        rloc::RawLocListEntry::DefaultLocation { data } => out matches wloc::Location::DefaultLocation { data: d } && expr_conv(data.0.rv(), enc, true, d),
+        rloc::RawLocListEntry::StartEnd { begin, end, data } => out matches wloc::Location::StartEnd { begin: b, end: e2, data: d } && conv_addr(ca, begin, b) && conv_addr(ca, end, e2) && expr_conv(data.0.rv(), enc, true, d),
+        rloc::RawLocListEntry::StartLength { begin, length, data } => out matches wloc::Location::StartLength { begin: b, length: l, data: d } && conv_addr(ca, begin, b) && l == length && expr_conv(data.0.rv(), enc, true, d),
+    }
+}
+
+pub open spec fn loc_hb<R: Reader>(src: Seq<rloc::RawLocListEntry<R>>, hb0: bool) -> bool
+    decreases src.len()
+{
+    if src.len() == 0 { hb0 } else { loc_hb(src.drop_last(), hb0) || src.last() is BaseAddress || src.last() is BaseAddressx }
+}
+
+pub open spec fn loc_is_empty(l: wloc::Location) -> bool {
+    match l {
+        wloc::Location::StartLength { begin, length, data } => length == 0,
+        wloc::Location::StartEnd { begin, end, data } => begin == end,
+        wloc::Location::OffsetPair { begin, end, data } => begin == end,
+        _ => false,
+    }
+}
+
+pub open spec fn loc_list_rel<R: Reader, CA: Fn(u64) -> Option<Address>>(ca: &CA, unit: usize, enc: Encoding, src: Seq<rloc::RawLocListEntry<R>>, hb0: bool, out: Seq<wloc::Location>) -> bool
+    decreases src.len()
+{
+    if src.len() == 0 { out.len() == 0 } else {
+        let pre = src.drop_last();
+        let e = src.last();
+        let hb = loc_hb(pre, hb0);
+        (out.len() > 0 && !loc_is_empty(out.last()) && loc_entry_rel(ca, unit, enc, e, hb, out.last()) && loc_list_rel(ca, unit, enc, pre, hb0, out.drop_last()))
+        || ((exists|l: wloc::Location| #[trigger] loc_entry_rel(ca, unit, enc, e, hb, l) && loc_is_empty(l)) && loc_list_rel(ca, unit, enc, pre, hb0, out))
+    }
+}
+
+// ---- the representable sub-domain of the CFI conversion (write-side operands are i32 / u32 / u8 / i8).  The `*-inrange`
+// clauses state exactness on this sub-domain; they hold on the pinned tree and keep guarding the mapping itself while
+// the unconditional clauses above fail because of the narrowing casts (finding F7).
+pub open spec fn fits_i32(v: int) -> bool { -0x8000_0000 <= v <= 0x7fff_ffff }
+
+pub open spec fn cfi_in_range(i: rcfi::CallFrameInstruction<usize>, caf: int, daf: int, loc: int) -> bool {
+    match i {
+        rcfi::CallFrameInstruction::AdvanceLoc { delta } => caf <= 0xffff_ffff && delta as int * caf <= 0xffff_ffff && loc + delta as int * caf <= 0xffff_ffff,
+        rcfi::CallFrameInstruction::DefCfa { register, offset } => offset <= 0x7fff_ffff,
+        rcfi::CallFrameInstruction::DefCfaOffset { offset } => offset <= 0x7fff_ffff,
+        rcfi::CallFrameInstruction::DefCfaSf { register, factored_offset } => fits_i32(factored_offset as int * daf),
+        rcfi::CallFrameInstruction::DefCfaOffsetSf { factored_offset } => fits_i32(factored_offset as int * daf),
+        rcfi::CallFrameInstruction::OffsetExtendedSf { register, factored_offset } => fits_i32(factored_offset as int * daf),
+        rcfi::CallFrameInstruction::ValOffsetSf { register, factored_offset } => fits_i32(factored_offset as int * daf),
+        rcfi::CallFrameInstruction::Offset { register, factored_offset } => factored_offset <= 0x7fff_ffff_ffff_ffff && fits_i32(factored_offset as int * daf),
+        rcfi::CallFrameInstruction::ValOffset { register, factored_offset } => factored_offset <= 0x7fff_ffff_ffff_ffff && fits_i32(factored_offset as int * daf),
+        rcfi::CallFrameInstruction::ArgsSize { size } => size <= 0xffff_ffff,
+        _ => true,
+    }
+}
